@@ -51,7 +51,7 @@ def generate(rng, tier, idx):
         # a grid larger than any plausible internal block size, and not a multiple of a power of two (cube format keeps it cheap)
         w.update(format=2, n_models=rng.choice([1030, 4100, 16421, 16421]), n_wav=12, n_ap=(2 if w['apdep'] else 1), asc_per_file=None, mixed=None,
                  zero_band=None, gz=False, subdir=0, n_par=1)
-        w['flux_unit'] = w['flux_unit'] if w['flux_unit'] in ('mJy', 'Jy') else 'mJy'
+        w['flux_unit'] = w['flux_unit'] if w['flux_unit'] in ('mJy', 'Jy', 'MJY', 'MJy', 'uJy') else 'mJy'
     w['ext_n'] = 40
     nf = len(w['filters'])
     av_hi = round(rng.uniform(5, 30), 2)
